@@ -2,6 +2,9 @@
 //! The harness contains drivers and recorders only; every oracle lives in TLA+ and is evaluated by TLC.
 mod util;
 mod txm;
+mod sh;
+mod mvcc;
+mod val;
 
 fn main() {
     let args: Vec<String> = std::env::args().skip(1).collect();
@@ -12,6 +15,8 @@ fn main() {
     let opts = util::Opts::parse(&args[1..]);
     let rc = match cmd.as_str() {
         "txm" => txm::main(&opts),
+        "sh" => sh::main(&opts),
+        "mvcc" => mvcc::main(&opts),
         _ => {
             eprintln!("unknown subcommand {cmd}");
             2
